@@ -13,6 +13,6 @@ func reg(name string, f func()) { Harnesses[name] = f }
 // engine starts every path from freshly initialised globals; the native replay binary runs many
 // harnesses in one process and has to do the same.
 func resetGlobals() {
-	small, noCall, fullAmounts, call2, varyHash = false, false, false, false, false
+	small, noCall, fullAmounts, call2, varyHash, medium = false, false, false, false, false, false
 	scnItems, scnDNS = nil, nil
 }
